@@ -649,11 +649,13 @@ func (it *interp) execBlock(f frameID, fn *ssa.Function, b *ssa.BasicBlock, s *s
 		case *ssa.Phi:
 			continue
 		case *ssa.If:
+			it.hookTerminator(s, f, fn, in)
 			t, e := it.branch(s, f, x.Cond)
 			deliver(b, b.Succs[0], t)
 			deliver(b, b.Succs[1], e)
 			return s
 		case *ssa.Jump:
+			it.hookTerminator(s, f, fn, in)
 			deliver(b, b.Succs[0], s)
 			return s
 		case *ssa.Return:
@@ -664,6 +666,15 @@ func (it *interp) execBlock(f frameID, fn *ssa.Function, b *ssa.BasicBlock, s *s
 		}
 	}
 	return s
+}
+
+// hookTerminator hands If and Jump instructions to AtInstr (contracts anchored at a loop's entry edge).
+func (it *interp) hookTerminator(s *state, f frameID, fn *ssa.Function, in ssa.Instruction) {
+	if it.record && it.hooks != nil && it.hooks.AtInstr != nil {
+		for _, d := range s.ds {
+			it.hooks.AtInstr(&Helper{it: it, f: f, fn: fn, in: in}, fn, in, &Disjunct{d: d, it: it, f: f})
+		}
+	}
 }
 
 func (it *interp) doReturn(f frameID, fn *ssa.Function, ret *ssa.Return, s *state) {
